@@ -99,7 +99,7 @@ class BinCompletion(FunctionContract):
         import prtpy
         from pyvc.concrete import unjson
         w = unjson(w)
-        return prtpy.pack(algorithm=prtpy.packing.bin_completion, binsize=w["binsize"], items=list(w["values"]), outputtype=prtpy.out.BinCount)
+        return prtpy.pack(algorithm=target_fn("prtpy.packing.bin_completion", "bin_completion"), binsize=w["binsize"], items=list(w["values"]), outputtype=prtpy.out.BinCount)
 
 
 class BinCompletionOversize(BinCompletion):
